@@ -1,19 +1,159 @@
-"""C03 — emitted documents conform to the published wire format.  Same cases, model and correspondence
-as C02 (harness/props/c02.py); the monitor is mon3 of coq/run/C02Run.v (schema verdict, index sanity,
-nodes listed in index order with the root first, port addressing by the reader's contract)."""
-from props.c02 import RT
+"""C03 — emitted documents conform to the published wire format.  Same cases, model and typed correspondence
+as C02 (harness/props/c02.py, coq/run/C02Run.v: mon3 = python-jsonschema verdict, index sanity, nodes listed in
+index order with the root first, port addressing by the reader's contract).
+
+Second pass (coq/run/C03SchemaRun.v, harness/c03_coqschema.py): every document a case emits — exactly the texts
+the python-jsonschema server is asked about: HUGR documents, Package documents, Extension documents, lowering
+HUGRs inside extensions — is also written out as a JSON tree and validated IN COQ (vm_compute) by the validator of
+coq/model/Schema.v against the regenerated `published_hugr_strict` constant; both validators must accept (monitor)
+and agree (correspondence).  Per HUGR of a case the JSON value the implementation wrote is compared in Coq with
+the rendering (coq/model/DocJson.v `doc_json`) of the document the Gallina model of Hugr._to_serial computes from
+the public-API dump; operation objects and metadata dicts come from that dump, not from the document."""
+import json
+import os
+
+import fw
+from fw import gN, glist, gbool
+from props import c02
+from props.c02 import RT, Lit, opcode
+from translators import schema as schema_tr
+import c03_coqschema as cj
+
+# documents above this size (bytes of JSON text) are judged by python-jsonschema only (Coq elaboration cost)
+MAX_COQ_DOC = 200_000
 
 
 class C03(RT):
     id = "C03"
     props_file = "props/C03.v"
-    run_file = "run/C03Run.v"
-    run_module = "run.C03Run"
+    run_file = "run/C03SchemaRun.v"
+    run_module = "run.C03SchemaRun"
+    case_type = "jcase"
+    shard = 8
     which = 3
     rule = ("documents of HUGRs built by generated builder programs followed by a public-API mutation history, of "
             "packages of such modules (with an extension whose operation carries a lowering HUGR) and of extensions; "
             "non-trivial = a HUGR with an order link or a hole in its node table and at least 4 nodes, or a "
             "package / extension document")
+    trusted = list(RT.trusted) + [
+        "harness/c03_coqschema.py: printer of the emitted JSON text (parsed with Python's json) as a Gallina `json` "
+        "term with shared sub-values; the tables operation code -> members / metadata code -> members of the tie are "
+        "taken from the public-API dump (NodeData._to_serial per node), not from the document",
+        "harness/translators/schema.py (C17): specification/schema/hugr_schema_strict_live.json -> gen/Schemas.v "
+        "`published_hugr_strict`, regenerated on every run, fails closed on keywords outside the formalised subset",
+        "fuel 600 of the Coq validator is enough for every sampled document: checked per document by the agreement "
+        "with python-jsonschema (exhausted fuel rejects)",
+    ]
+    assumptions = list(RT.assumptions) + [
+        "theorems C03_model_document_schema_valid / C03_model_package_schema_valid: every operation object (with any "
+        "parent index) is accepted by the OpType definition of the published strict schema (hypothesis ops_valid, "
+        "visible in the statement; what C05/C17 cover); evaluated on every sampled document by the Coq monitor",
+        "JSON Schema draft 2020-12 semantics for the keyword subset occurring in the published files (C17's validator)",
+    ]
+
+    def regenerate(self, ctx):
+        # the published schema files as Coq constants (shared with C17; fail-closed translator)
+        path, _ = schema_tr.regenerate(fw.REPO, fw.COQ, ctx.work)
+        return [os.path.relpath(path, fw.VERIF)]
+
+    # -- observation: the C02 observation plus every text handed to the schema server
+    def observe(self, case, ctx):
+        srv = c02.schema_server(ctx)
+        rec = []
+        plain_check = type(srv).check
+
+        def recording(defname, text, _srv=srv):
+            ans = plain_check(_srv, defname, text)
+            rec.append((defname, text, ans))
+            return ans
+        srv.check = recording
+        try:
+            o = super().observe(case, ctx)
+        finally:
+            del srv.check
+        o["schema_docs"] = rec
+        return o
+
+    # -- literal
+    def literal(self, case, obs, ctx, count=True):
+        base = super().literal(case, obs, ctx)
+        st = ctx.stats.setdefault("coq_schema", {"documents": 0, "bytes": 0, "over_size_cap_python_only": 0,
+                                                 "unprintable_python_only": 0, "ties": 0, "package_ties": 0,
+                                                 "literal_bytes": 0, "validator_disagreements_among_failing_cases": 0,
+                                                 "failing_cases_diagnosed": 0})
+        if not count:
+            st = dict(st)
+        L = Lit(ctx)
+        dag = cj.Dag()
+        roots = []          # (kind, payload, dag id)
+        try:
+            docs = []
+            parsed = {}
+            for defname, text, ans in obs.get("schema_docs", []):
+                if len(text) > MAX_COQ_DOC:
+                    st["over_size_cap_python_only"] += 1
+                    continue
+                parsed[text] = json.loads(text)
+                docs.append((defname, dag.add(parsed[text]), ans == "OK"))
+                st["documents"] += 1
+                st["bytes"] += len(text)
+            rts = []
+            if "skip" not in obs and case["kind"] == "hugr" and "a" in obs:
+                rts = [obs]
+            elif case["kind"] == "pkg" and "mods" in obs:
+                rts = obs["mods"]
+            ops, mds = {}, {}
+            for o in rts:
+                for n in o["a"]["nodes"]:
+                    code = opcode(n["op"])
+                    ops.setdefault(L.ops(code), dag.members(json.loads(code)))
+                    if n["md"]:
+                        mds.setdefault(L.md(json.dumps(n["md"], sort_keys=True)), dag.members(n["md"]))
+            ties, pkg = [], None
+            if case["kind"] == "hugr" and rts:
+                j = next((t for d, t, _ in obs["schema_docs"] if d == "SerialHugr"), None)
+                if j is not None and j in parsed and "doc" in obs:
+                    ties.append((parsed[j].get("encoder"), dag.add(parsed[j])))
+                    st["ties"] += 1
+                else:
+                    ties.append((None, None))
+            elif case["kind"] == "pkg" and rts:
+                j = next((t for d, t, _ in obs["schema_docs"] if d == "Package"), None)
+                pd = parsed.get(j)
+                if pd is not None and isinstance(pd.get("modules"), list) and len(pd["modules"]) == len(rts) \
+                        and all("doc" in o for o in rts):
+                    for m in pd["modules"]:
+                        ties.append((m.get("encoder") if isinstance(m, dict) else None, dag.add(m)))
+                        st["ties"] += 1
+                    pkg = ([dag.add(e) for e in pd.get("extensions", [])], dag.add(pd))
+                    st["package_ties"] += 1
+                else:
+                    ties = [(None, None)] * len(rts)
+            root_ids = [i for _, i, _ in docs] + list(ops.values()) + list(mds.values()) + \
+                       [i for _, i in ties if i is not None] + (pkg[0] + [pkg[1]] if pkg else [])
+            gstrs, gdefs, at = dag.render(root_ids)
+        except cj.Unprintable:
+            st["unprintable_python_only"] += 1
+            return "(J3 %s [] [] [] [] [] %s None)" % (base, glist(["(Ti None None)"] * len(self._rts(case, obs))))
+        gdocs = glist("(Sd %s %d %s)" % (cj.gstring(d), at[i], gbool(ok)) for d, i, ok in docs)
+        gops = glist("(Pr %d %d)" % (c, at[i]) for c, i in ops.items())
+        gmds = glist("(Pr %d %d)" % (c, at[i]) for c, i in mds.items())
+        gties = glist("(Ti %s %s)" % (cj.gopt_string(e) if isinstance(e, str) else "None",
+                                      "None" if i is None else "(Some %d%%N)" % at[i]) for e, i in ties)
+        gpkg = "None" if pkg is None else "(Some (%s, %d%%N))" % (glist("%d%%N" % at[i] for i in pkg[0]), at[pkg[1]])
+        lit = "(J3 %s\n %s\n %s\n %s\n %s\n %s\n %s\n %s)" % (base, gstrs, gdefs, gops, gmds, gdocs, gties, gpkg)
+        st["literal_bytes"] += len(lit)
+        return lit
+
+    @staticmethod
+    def _rts(case, obs):
+        if "skip" in obs:
+            return []
+        if case["kind"] == "hugr":
+            return [obs] if "a" in obs else []
+        if case["kind"] == "pkg":
+            return obs.get("mods", [])
+        return []
 
     def nontrivial(self, case, obs):
         a = obs.get("a")
@@ -21,6 +161,61 @@ class C03(RT):
             return case["kind"] != "hugr" and "skip" not in obs
         idxs = [n["idx"] for n in a["nodes"]]
         return len(idxs) >= 4 and (idxs != list(range(len(idxs))) or any(l[1] == -1 for l in a["links"]))
+
+    def describe(self, case, obs):
+        d = super().describe(case, obs)
+        bad = [(n, t) for n, t, ans in obs.get("schema_docs", []) if ans != "OK"]
+        if bad:
+            d["observed"]["rejected_document"] = {"definition": bad[0][0], "text": bad[0][1][:20000]}
+        return d
+
+    DIAG_MAX = 4
+
+    def diagnose(self, case, obs, ctx):
+        """which part of `mon` fails on this case: {"mon_typed": ok?, "mon_py": ok?, "mon_coq": ok?} or None.
+        One small coqc run; at most DIAG_MAX per check run."""
+        n = ctx.__dict__.get("c03_diag_n", 0)
+        if n >= self.DIAG_MAX:
+            return None
+        ctx.__dict__["c03_diag_n"] = n + 1
+        try:
+            res = fw.eval_cases(ctx.work, self.run_module, [self.literal(case, obs, ctx, count=False)], shard=1,
+                                checks=("mon_typed", "mon_py", "mon_coq"), tag="diag%d" % n, case_type=self.case_type)
+        except fw.CoqEvalError:
+            return None
+        ctx.stats["coq_schema"]["failing_cases_diagnosed"] += 1
+        return {k: not v for k, v in res.items()}
+
+    def signature(self, case, obs, ctx):
+        sig = super().signature(case, obs, ctx)
+        py_rejects = any(ans != "OK" for _, _, ans in obs.get("schema_docs", []))
+        generic = sig == "wire-format:index-or-port-addressing" or sig.endswith(":document")
+        if not (py_rejects or generic):
+            return sig
+        d = self.diagnose(case, obs, ctx)
+        if d is None:
+            return sig
+        if d["mon_py"] != d["mon_coq"]:
+            # the two validators disagree on a document of this case: drift of the Coq validator (or of the
+            # translation of the schema file / the document) from python-jsonschema
+            ctx.stats["coq_schema"]["validator_disagreements_among_failing_cases"] += 1
+            ctx.notes.append("MODEL DRIFT: python-jsonschema %s and the Coq validator %s a document of case %s"
+                             % ("accepts" if d["mon_py"] else "rejects", "accepts" if d["mon_coq"] else "rejects",
+                                json.dumps(case)[:300]))
+        if generic and not d["mon_coq"] and d["mon_typed"]:
+            return "schema:coq-validator-rejects:python-jsonschema-accepts"
+        return sig
+
+    def distribution(self, cases, observations):
+        d = super().distribution(cases, observations)
+        sizes = sorted(len(t) for o in observations for _, t, _ in o.get("schema_docs", []))
+        d["schema_documents"] = {"count": len(sizes), "bytes": sum(sizes),
+                                 "median_bytes": sizes[len(sizes) // 2] if sizes else 0,
+                                 "max_bytes": sizes[-1] if sizes else 0,
+                                 "coq_size_cap_bytes": MAX_COQ_DOC,
+                                 "by_definition": {k: sum(1 for o in observations for n, _, _ in o.get("schema_docs", []) if n == k)
+                                                   for k in ("SerialHugr", "Package", "Extension")}}
+        return d
 
 
 PROP = C03()
